@@ -4,9 +4,8 @@ CONSTANTS
   Denote <- DenoteMC
   Limits <- MCLimits
   HBMode = "off"
-  Table = "GPOS"
-  MaxL = 3
-  TwoSubs = FALSE
+  Table = "GSUB"
+  Shapes = {"2x2", "3x1"}
 INIT MInit
 NEXT RNext
 CONSTRAINTS Bounded NoStuckLig GenEmit Stat
